@@ -91,7 +91,7 @@ package headers
 //@ spec func specHdRangeInv(hd ptr) bool = (hd.Range.value.some ==> hd.Range.value.value.start >= -1 && hd.Range.value.value.end >= -1) && (hd.IfRange.value.some ==> (hd.IfRange.value.value.left.some || hd.IfRange.value.value.right.some))
 // Every Header of a HeaderDirectives carries the canonical name of its field.
 //@ spec func specHdNames(hd ptr) bool = hd.IfModifiedSince.name == "If-Modified-Since" && hd.IfUnmodifiedSince.name == "If-Unmodified-Since" && hd.IfNoneMatch.name == "If-None-Match" && hd.IfMatch.name == "If-Match" && hd.Range.name == "Range"
-//@ props C16 C04 C03 C06
+//@ props C16 C04 C03 C06 C07
 //@ func ParseHeaderDirective
 //@   nopanic
 //@   pure
@@ -110,6 +110,12 @@ package headers
 //@   loop 1 invariant visited[sid("Cache-Control")] ==> in(header, "Cache-Control") && (forall i int :: 0 <= i && i < len(header["Cache-Control"]) && specLineForbids(header["Cache-Control"][i]) ==> hd.CacheControl.value.value.noCache)
 //@   loop 1 invariant visited[sid("Expires")] <==> hd.Expires.value.some
 //@   loop 1 invariant visited[sid("Expires")] ==> in(header, "Expires") && (!timeparse_ok(sid(header["Expires"][0])) ==> hd.Expires.value.value == 0) && (timeparse_ok(sid(header["Expires"][0])) ==> hd.Expires.value.value == timeparse_val(sid(header["Expires"][0])))
+//@   loop 1 invariant [C07] visited[sid("If-Range")] ==> in(header, "If-Range") && (len(header["If-Range"][0]) > 0 ==> hd.IfRange.value.some)
+//@   loop 1 invariant [C07] visited[sid("If-Range")] && len(header["If-Range"][0]) > 0 && timeparse_ok(sid(header["If-Range"][0])) ==> hd.IfRange.value.value.right.some && hd.IfRange.value.value.right.value == timeparse_val(sid(header["If-Range"][0]))
+//@   loop 1 invariant [C07] visited[sid("If-Range")] && len(header["If-Range"][0]) > 0 && !timeparse_ok(sid(header["If-Range"][0])) ==> hd.IfRange.value.value.left.some && streq(hd.IfRange.value.value.left.value, header["If-Range"][0])
+// Whatever non-empty If-Range the client sent is kept: as a date when it is an HTTP-date, as an
+// opaque validator otherwise (an unknown form can only fail to match - the full 200 follows).
+//@   ensures [C07] in(header, "If-Range") && len(header["If-Range"][0]) > 0 ==> result.IfRange.value.some && (timeparse_ok(sid(header["If-Range"][0])) ==> result.IfRange.value.value.right.some && result.IfRange.value.value.right.value == timeparse_val(sid(header["If-Range"][0]))) && (!timeparse_ok(sid(header["If-Range"][0])) ==> result.IfRange.value.value.left.some && streq(result.IfRange.value.value.left.value, header["If-Range"][0]))
 
 // A response may be stored unless Cache-Control forbids it (no-store, no-cache,
 // private, max-age below one second), Expires is in the past, or the request
@@ -131,11 +137,13 @@ package headers
 //@   ensures [C03] !forceDefaultCacheMaxAge && !(hd.CacheControl.value.some && hd.CacheControl.value.value.maxAge > 0) && hd.Expires.value.some ==> result == hd.Expires.value.value
 //@   ensures [C03] !forceDefaultCacheMaxAge && !(hd.CacheControl.value.some && hd.CacheControl.value.value.maxAge > 0) && !hd.Expires.value.some ==> result == now + defaultCacheMaxAge
 
-//@ props C16 C06
+// (also C05: a client conditional left in place makes the shared fetch conditional - a 304 on a
+// cold key can be stored for nobody and every waiting client fetches for itself)
+//@ props C16 C06 C05
 //@ func HeaderDirectives.StripRegularConditionals
 //@   nopanic
 //@   assigns HeaderDirectives map_
 //@   requires header != nil && specHdNames(hd)
-//@   ensures [C06] !in(header, "If-None-Match") && !in(header, "If-Modified-Since") && !in(header, "If-Match") && !in(header, "If-Unmodified-Since")
+//@   ensures [C06,C05] !in(header, "If-None-Match") && !in(header, "If-Modified-Since") && !in(header, "If-Match") && !in(header, "If-Unmodified-Since")
 //@   ensures forall k key :: in(header, k) ==> old(in(header, k)) && header[k] == old(header[k])
 //@   ensures hd.Range == old(hd.Range) && hd.IfRange == old(hd.IfRange)
